@@ -212,9 +212,12 @@ def run_contract(name, carveouts=(), timeout_ms=10000):
                     except Exception as e:  # noqa: BLE001
                         inputs[k] = f"<unconcretisable: {e}>"
                 entry = {"obligation": ob.name, "kind": ob.kind, "note": ob.note, "inputs": inputs, "replayed": None}
+                entry["replay_fn"] = cdef.replay
                 if cdef.replay is not None:
                     try:
-                        entry["replayed"] = cdef.replay(inputs)
+                        from contracts import replay as _R
+
+                        entry["replayed"] = _R.run(cdef.replay[0], cdef.replay[1], _jsonable(inputs))
                     except Exception as e:  # noqa: BLE001
                         entry["replayed"] = None
                         entry["replay_error"] = f"{type(e).__name__}: {e}"
